@@ -83,6 +83,8 @@ def gen_op(rnd: random.Random, M, c, counter):
         t = rnd.choice(TYPES2 + TYPES1 + ['AND3', 'ALWAYS_TRUE', 'ALWAYS_FALSE'])
         ops = tuple(some(2)) if t in TYPES2 else tuple(some(1)) if t in TYPES1 else tuple(some(3)) if t == 'AND3' else tuple(some(rnd.choice((0, 1, 2))))   # constants may carry operands
         t = 'AND' if t == 'AND3' else t
+        if len(ops) >= 2 and rnd.random() < 0.2:
+            ops = (ops[0],) * len(ops)      # the same gate in every operand position
         # (the two kinds of wrong argument are drawn apart: each check of the call must be the one that refuses)
         which = rnd.random()
         lab = rnd.choice(labels) if (bad and labels and which < 0.5) else fresh()
